@@ -323,3 +323,67 @@ func kvStacks() string {
 	}
 	return strings.Join(rs, "\n\n")
 }
+
+// ---- the periodic store job as the trigger ---------------------------------------------------------
+
+// rollupThreshold: kv's default for the number of waiting files from which the periodic job
+// starts a family's rollup job at once (kv.defaultRollupThreshold; tsdb sets no other value).
+const rollupThreshold = 3
+
+// periodicGate asks the production gate of the periodic store job (store.compact: needRollup,
+// then rollup) for family f and checks the part of its answer that does not depend on the clock:
+// nothing waits -> no job; at least rollupThreshold files wait (and no job is running) -> the
+// job starts now. In between the gate compares the time since the family's last job (or its
+// creation) with the smallest waiting target interval (>= 5 min) plus a random part: not asserted,
+// the step does what the gate says.
+func (e *env) periodicGate(f *famState, when string) bool {
+	waiting, _ := f.waiting(e.p.targets())
+	got := kv.VerifNeedRollup(f.df.Family())
+	switch {
+	case len(waiting) == 0:
+		e.class("periodic rollup check: nothing waits")
+		if got {
+			e.fatalf("%s: source family %s %02d:00: the periodic job wants to roll up although no file of the family waits for any interval", when, f.pos.Date, f.pos.Hour)
+		}
+	case len(waiting) >= rollupThreshold:
+		e.class(fmt.Sprintf("periodic rollup check: >= %d files wait (job must start)", rollupThreshold))
+		if !got {
+			e.fatalf("%s: source family %s %02d:00: %d files wait for rollup (threshold %d), no job is running, and the periodic job does not start one",
+				when, f.pos.Date, f.pos.Hour, len(waiting), rollupThreshold)
+		}
+	case got:
+		e.class("periodic rollup check: below the threshold, started by the time rule")
+	default:
+		e.class("periodic rollup check: below the threshold, not started (time rule)")
+	}
+	return got
+}
+
+// periodicEpisode: 3-4 files flushed into one focus family without a rollup in between, then the
+// periodic job (must start the family's job), then optionally the periodic job again (nothing
+// waits any more) or after one more file.
+func (g *stepGen) periodicEpisode(mkRollup func(must int) step) (rs []step) {
+	t := g.t
+	focus := rapid.IntRange(0, len(g.p.Families)-1).Draw(t, "periodicFamily")
+	round := func() {
+		g.onlyFam = focus
+		rs = append(rs, g.writeStep())
+		g.onlyFam = -1
+		rs = append(rs, g.flushWith(focus))
+	}
+	for i, n := 0, rapid.IntRange(3, 4).Draw(t, "periodicFiles"); i < n; i++ {
+		round()
+	}
+	g.periodicNext = true
+	rs = append(rs, mkRollup(focus))
+	switch rapid.IntRange(0, 2).Draw(t, "periodicAgain") {
+	case 1:
+		g.periodicNext = true
+		rs = append(rs, mkRollup(focus))
+	case 2:
+		round()
+		g.periodicNext = true
+		rs = append(rs, mkRollup(focus))
+	}
+	return rs
+}
